@@ -5,6 +5,7 @@ import (
 	"context"
 	"errors"
 	"fmt"
+	hedzrstates "github.com/hedzr/is/states"
 	"io"
 	stdslog "log/slog"
 	"os"
@@ -177,6 +178,13 @@ func genRegistry(r *gen.R) []custLevel {
 	var out []custLevel
 	for i := 0; i < n; i++ {
 		cl := custLevel{val: cands[i], title: fmt.Sprintf("cust%d", i), treatAs: -1}
+		if i%3 == 2 {
+			// (a short title in another script: fewer characters than the width of the level tag, more bytes than it)
+			cl.title = []string{"\u6ce8\u610f", "\u00e9\u00e0", "\u0416\u0443"}[(i/3)%3]
+			if i >= 9 {
+				cl.title = fmt.Sprintf("%s%d", cl.title, i) // (unique)
+			}
+		}
 		if r.P(65) {
 			cl.treatAs = gen.Pick(r, []slog.Level{slog.ErrorLevel, slog.WarnLevel, slog.InfoLevel, slog.DebugLevel, slog.TraceLevel, slog.PanicLevel})
 		}
@@ -240,6 +248,37 @@ func refusedAttempts(r *gen.R, cs []custLevel) (n int, accepted []string) {
 	}
 	return
 }
+
+// c01firstHolder is the state holder hedzr/is started with; c01holder is one an application installs instead.
+var c01firstHolder = hedzrstates.Env()
+
+type c01holder struct {
+	debug, trace, noColor, verbose, quiet bool
+	dl, tl, nc, vc, qc                    int
+}
+
+func (h *c01holder) InDebugging() bool       { return false }
+func (h *c01holder) GetDebugMode() bool      { return h.debug }
+func (h *c01holder) SetDebugMode(b bool)     { h.debug = b }
+func (h *c01holder) GetDebugLevel() int      { return h.dl }
+func (h *c01holder) SetDebugLevel(n int)     { h.dl = n }
+func (h *c01holder) GetTraceMode() bool      { return h.trace }
+func (h *c01holder) SetTraceMode(b bool)     { h.trace = b }
+func (h *c01holder) GetTraceLevel() int      { return h.tl }
+func (h *c01holder) SetTraceLevel(n int)     { h.tl = n }
+func (h *c01holder) IsNoColorMode() bool     { return h.noColor }
+func (h *c01holder) SetNoColorMode(b bool)   { h.noColor = b }
+func (h *c01holder) CountOfNoColor() int     { return h.nc }
+func (h *c01holder) SetNoColorCount(n int)   { h.nc = n }
+func (h *c01holder) IsVerboseMode() bool     { return h.verbose }
+func (h *c01holder) IsVerboseModePure() bool { return h.verbose }
+func (h *c01holder) SetVerboseMode(b bool)   { h.verbose = b }
+func (h *c01holder) CountOfVerbose() int     { return h.vc }
+func (h *c01holder) SetVerboseCount(n int)   { h.vc = n }
+func (h *c01holder) IsQuietMode() bool       { return h.quiet }
+func (h *c01holder) SetQuietMode(b bool)     { h.quiet = b }
+func (h *c01holder) CountOfQuiet() int       { return h.qc }
+func (h *c01holder) SetQuietCount(n int)     { h.qc = n }
 
 func registerOne(cl custLevel) error {
 	var opts []slog.RegOpt
@@ -433,10 +472,16 @@ func c01table(c *Ctx) {
 		hChild := hParent.New("ordinary-child")
 		hChild.SetWriter(w1).SetErrorWriter(w2)
 		hChild.SetColorMode(false)
+		// a WithSkip helper (what a facade derives for itself) of an owner that was switched Off afterwards: the helper
+		// is a logger with a level of its own
+		skipOwner := mkRoot().Root()
+		skipHelper := skipOwner.WithSkip(1)
+		skipHelper.SetWriter(w1).SetErrorWriter(w2)
+		skipOwner.SetLevel(slog.OffLevel)
 		kinds := []struct {
 			name string
 			l    slog.Logger
-		}{{"child of a logger made with a log/slog handler argument", hChild}, {"root-as-Logger", rootL}, {"root-as-Entry", rootE}, {"child", child}, {"default", defL}, {"default(a child of another logger)", defChild}}
+		}{{"WithSkip helper of a logger that is switched off", skipHelper}, {"child of a logger made with a log/slog handler argument", hChild}, {"root-as-Logger", rootL}, {"root-as-Entry", rootE}, {"child", child}, {"default", defL}, {"default(a child of another logger)", defChild}}
 		savedDefault := slog.Default()
 		defer slog.SetDefault(savedDefault)
 
@@ -452,6 +497,11 @@ func c01table(c *Ctx) {
 			{"off-again", func() { is.SetDebugMode(false) }, false},
 			{"on(side effect of SetLevel(Debug) on an unrelated logger, level restored)", func() { unrelated.SetLevel(slog.DebugLevel); unrelated.SetLevel(slog.WarnLevel) }, true},
 			{"off-3", func() { is.SetDebugMode(false) }, false},
+			{"on(SetDebugMode) after the application installed a state holder of its own (hedzrstates.UpdateEnvWith, as cmdr does)", func() {
+				hedzrstates.UpdateEnvWith(&c01holder{})
+				is.SetDebugMode(true)
+			}, true},
+			{"off-3b (the first holder is installed again, debug mode off)", func() { is.SetDebugMode(false); hedzrstates.UpdateEnvWith(c01firstHolder); is.SetDebugMode(false) }, false},
 			{"on(side effect of WithLevel(Debug))", func() { _ = unrelated.WithLevel(slog.DebugLevel) }, true},
 			{"off-4", func() { is.SetDebugMode(false) }, false},
 			{"on(side effect of package SetLevel(Debug), restored)", func() {
@@ -462,8 +512,9 @@ func c01table(c *Ctx) {
 			}, true},
 		}
 		if c.Tier == "quick" && idx > 0 {
-			states = states[:4]
+			states = append(states[:4:4], states[5:7]...)
 		}
+		defer hedzrstates.UpdateEnvWith(c01firstHolder)
 		// the caller's context is not part of the rule: a live one, one with values, a cancelled one and one whose
 		// deadline has passed take turns at every call that accepts a context
 		cancelled, cancel := context.WithCancel(context.Background())
